@@ -419,7 +419,11 @@ class Executor:
             if idx is not None:
                 base, k, ty = idx
                 return self.parse_place(base) + [("field", k, ty)]
-        m = re.fullmatch(r"(.+)\[(_\d+|\d+ of \d+)\]", s)
+        m = re.fullmatch(r"(.+)\[(\d+) of \d+\]", s)
+        if m:
+            # constant index into an array / slice pattern: element k of an aggregate built with numbered fields
+            return self.parse_place(m.group(1)) + [("field", m.group(2), "?")]
+        m = re.fullmatch(r"(.+)\[(_\d+)\]", s)
         if m:
             raise Unsupported("index place " + s)
         raise Unsupported("place " + s)
@@ -662,11 +666,13 @@ class Executor:
                 if fresh and isinstance(ln, Scalar):
                     self.ctx.assumptions.append("(bvule %s %s)" % (ln.term, bvlit((1 << 63) - 1, 64)))
                 return ln
+            if isinstance(v, Agg) and v.variant is None and v.fields and all(k.isdigit() for k in v.fields):
+                return Scalar(("bv", 64, False), bvlit(len(v.fields), 64))  # a concrete array / slice built by a model
             raise Unsupported("PtrMetadata of %r" % (v,))
         if t.startswith("&"):
             rest = t[1:].strip()
             is_mut = rest.startswith(("mut ", "raw mut "))
-            for p in ("mut ", "raw const ", "raw mut ", "fake shallow ", "fake "):
+            for p in ("mut ", "raw const ", "raw mut ", "(fake shallow) ", "(fake) ", "fake shallow ", "fake "):
                 if rest.startswith(p):
                     rest = rest[len(p):]
             steps = self.parse_place(rest)
